@@ -1747,3 +1747,26 @@ func TestPropDecodeTiny(t *testing.T) {
 }
 
 func TestReplay(t *testing.T) { vk.Replay(t) }
+
+// FuzzDecode is the coverage-guided stage of the thorough tier: arbitrary text as a JSON document, judged by
+// the same oracle as the generated corruptions (valid per encoding/json <=> decode succeeds with the same data;
+// invalid => decode fails and decode(doc, default) returns the default).
+func FuzzDecode(f *testing.F) {
+	for _, s := range []string{`{"a": [1, 2.5, "x\né😀", null, true, false], "b": {"c": -0.0, "d": 1e308}}`, `[]`, `"\\"`, `1E+2`, ` [ 1 , 2 ] `,
+		`{"k": "v", "k": 2}`, `[1.]`, "\"a\tb\"", `[-]`, `nul`, `{"a":}`, `[1,]`, `"\ud800"`, `123456789012345678901234567890`, `0.1e-400`} {
+		f.Add(s)
+	}
+	f.Fuzz(func(t *testing.T, doc string) {
+		if len(doc) > 4000 {
+			return
+		}
+		c := DocCase{Base: doc}
+		if !utf8.ValidString(doc) {
+			c = DocCase{Hex: hex.EncodeToString([]byte(doc))}
+		}
+		if err := subCorrupt.Check(c); err != nil {
+			vk.Violation("decode-corrupt", c, err)
+			t.Fatal(err)
+		}
+	})
+}
